@@ -5,8 +5,8 @@
 //   ELEM=2 : 72-byte struct  -> items_per_page == 2 (second item of a page re-uses tail_page without the page mutex)
 //   ELEM=0 : int             -> items_per_page == 32
 #if REALCPP
-// the real r1:: entry points of the bounded queue (wait/notify/abort wrappers, predicate_leq, representation allocation) are part of the unit;
-// the external boundary moves down to concurrent_monitor_base::wait / notify(pred) / abort_all (cut, contract stubs in the harness)
+// REALCPP=2: src/tbb/concurrent_bounded_queue.cpp (r1:: wait/notify/abort wrappers, the notify predicate, representation allocation) and all of
+// concurrent_monitor.h are part of the unit; the external boundary is binary_semaphore::P/V and the bounded spin of the monitor mutex (spec.py MONCUT)
 #include "src/tbb/concurrent_bounded_queue.cpp"
 #else
 #include "oneapi/tbb/concurrent_queue.h"
@@ -137,12 +137,8 @@ extern "C" void vp_q_set_capacity(queue_t* q, long c) { q->set_capacity(c); }
 extern "C" long vp_q_capacity(queue_t* q) { return q->capacity(); }
 // the wait predicate handed to r1::wait_bounded_queue_monitor (true = keep waiting); called by the harness stub of that function
 extern "C" int vp_call_pred(tbb::detail::d1::delegate_base* p) { return (*p)(); }
-#if REALCPP == 1
-// boundary variant 1 (names internal types: a rename of predicate_leq breaks the build): concurrent_monitor_base::wait/notify/abort_all cut
-extern "C" int vp_call_leq(const tbb::detail::r1::predicate_leq* p, unsigned long ctx) { return (*p)(ctx); }
-extern "C" unsigned long vp_node_ctx(tbb::detail::r1::sleep_node<std::uintptr_t>* n) { return n->my_context; }
-#elif REALCPP == 2
-// boundary variant 2: the whole concurrent_monitor_base (wait set, epoch, predicate evaluation on node contexts, abort flags) and sleep_node are
+#if REALCPP == 2
+// the whole concurrent_monitor_base (wait set, epoch, predicate evaluation on node contexts, abort flags) and sleep_node are
 // real; only binary_semaphore::P/V and the bounded spin of concurrent_monitor_mutex::lock are cut. No type of concurrent_bounded_queue.cpp is named.
 // cbmc granularity: the two monitors live right behind the representation in ONE allocation; list-node pointers into that object make cbmc
 // rewrite the whole representation on every list update. The harness therefore moves the (still idle) monitors into an object of their own
